@@ -160,7 +160,7 @@ theorem create_success_model (cs : CState) (k : Cont) (ks : List Cont) (hc : cs.
   have hfe : frameEnd cs e = createEnd cs (fullOf cs e) k ks h e addr := by
     unfold frameEnd; simp only [hc, ho, ht, hk]; rfl
   have hce : createEnd cs (fullOf cs e) k ks h e addr =
-      { next := [{ (resume (fullOf cs e) cs.logs cs.bal cs.created cs.nonce k ks h e) with st := { (resume (fullOf cs e) cs.logs cs.bal cs.created cs.nonce k ks h e).st with stack := .bv 256 (.con addr) :: k.st.stack, mem := k.st.mem, returndata := [] }, created := (addr, code.map (· % 256)) :: cs.created }] } := by
+      { next := [{ (resume (fullOf cs e) cs.logs cs.bal cs.created cs.nonce cs.hsto k ks h e) with st := { (resume (fullOf cs e) cs.logs cs.bal cs.created cs.nonce cs.hsto k ks h e).st with stack := .bv 256 (.con addr) :: k.st.stack, mem := k.st.mem, returndata := [] }, created := (addr, code.map (· % 256)) :: cs.created }] } := by
     unfold createEnd; rw [if_pos hf]; simp only [hlit]
   rw [hfe, hce]
   refine ⟨_, rfl, rfl, ?_, ?_, ?_, ?_, rfl, rfl, rfl, rfl, rfl, rfl, rfl⟩
